@@ -67,6 +67,54 @@ def wrapper_table(cls, problems):
     return out
 
 
+FACTORY_PARAMS = ['serializer', 'cookie_name', 'max_age', 'path', 'domain', 'secure', 'httponly', 'samesite', 'timeout',
+                  'reissue_time', 'set_on_exception']
+
+
+def factory_skeleton(m, problems):
+    """BaseCookieSessionFactory(<fixed parameter list>): <doc>; @implementer(ISession) class CookieSession(dict): ..;
+    return CookieSession -- plus the module-level names this relies on.  Fail-closed."""
+    fn = m.find('BaseCookieSessionFactory')
+    if fn is None:
+        problems.append('BaseCookieSessionFactory not found')
+        return
+    a = fn.args
+    if [x.arg for x in a.args] != FACTORY_PARAMS or a.vararg or a.kwarg or a.kwonlyargs or fn.decorator_list:
+        problems.append('BaseCookieSessionFactory: parameter list / decorators changed: %s' % [x.arg for x in a.args])
+    body = [b for b in fn.body if not (isinstance(b, ast.Expr) and isinstance(b.value, ast.Constant))]
+    ok = (len(body) == 2 and isinstance(body[0], ast.ClassDef) and body[0].name == 'CookieSession'
+          and [ast.unparse(b) for b in body[0].bases] == ['dict'] and not body[0].keywords
+          and [ast.unparse(d) for d in body[0].decorator_list] == ['implementer(ISession)']
+          and ast.unparse(body[1]) == 'return CookieSession')
+    if not ok:
+        problems.append('BaseCookieSessionFactory: body is no longer <doc>; @implementer(ISession) class CookieSession(dict); '
+                        'return CookieSession')
+    # module level: imports and re-exports the modelled code relies on
+    binds = {}
+    for st in m.tree.body:
+        if isinstance(st, ast.ImportFrom):
+            for al in st.names:
+                binds.setdefault(al.asname or al.name, []).append('from %s import %s' % (st.module, al.name))
+        elif isinstance(st, ast.Import):
+            for al in st.names:
+                binds.setdefault(al.asname or al.name, []).append('import %s' % al.name)
+        elif isinstance(st, ast.Assign):
+            for t in st.targets:
+                if isinstance(t, ast.Name):
+                    binds.setdefault(t.id, []).append('= ' + ast.unparse(st.value))
+        elif isinstance(st, (ast.FunctionDef, ast.ClassDef)):
+            binds.setdefault(st.name, []).append('def/class')
+    want = {'JSONSerializer': ['from webob.cookies import JSONSerializer', '= JSONSerializer'],
+            'SignedSerializer': ['from webob.cookies import SignedSerializer'],
+            'implementer': ['from zope.interface import implementer'],
+            'ISession': ['from pyramid.interfaces import ISession'],
+            'manage_accessed': ['def/class'], 'manage_changed': ['def/class'],
+            'BaseCookieSessionFactory': ['def/class'], 'SignedCookieSessionFactory': ['def/class'], 'dict': None}
+    for nm, w in want.items():
+        if binds.get(nm) != w:
+            problems.append('session.py: module-level binding of %s is %s, expected %s' % (nm, binds.get(nm), w))
+
+
 def _find_compare(fn, pred):
     hits = [n for n in ast.walk(fn) if isinstance(n, ast.Compare) and len(n.ops) == 1 and pred(n)]
     return hits
@@ -85,6 +133,7 @@ def extract(src):
         if cls is None:
             raise ValueError('CookieSession class not found')
         vals['table'] = wrapper_table(cls, problems)
+        factory_skeleton(m, problems)
         # timeout test in __init__:  now - renewed OP self._timeout
         init = m.find('BaseCookieSessionFactory.CookieSession.__init__')
         h = _find_compare(init, lambda n: ast.unparse(n.left) == 'now - renewed' and ast.unparse(n.comparators[0]) == 'self._timeout')
